@@ -54,6 +54,8 @@ def unit_rac(eng):
         # an alias that applies '/' or '>>' to a label difference, defined above every label, one label before the directive and one after it
         ("half = (fin - beg) / 2\nbeg:\n.link 2000 + half\n.word 1, 2\nfin:\n", 0o2002), ("q = <fin - beg> >> 1\nbeg:\n.link 3000 + 3*q\n.word 1, 2\nfin:\n", 0o3006),
         ("h = (fin - beg) / 2\nbeg:\n. = 2000 + h\n.word 1, 2, 3, 4\nfin:\n", 0o2004),
+        # ... and a statement that uses the alias (tried out while it is compiled, before the base is asked for in earnest)
+        ("x = (end - start)/2\nstart:\n.link 1000 + x\nnop\nnop\nend:\n.word x\n", 0o1002), ("x = <end - start> >> 1\nstart:\n.link 3000 + x\n.byte x, 0\nnop\nend:\nmov #x, r0\n", 0o3002),
         # labels in other files, directly and through aliases (D50), aliases of aliases, the directive in the second file
         ((".link 2000 + e - s\ns: .word 1\n", ".word 2\ne::\n"), 0o2004), ((".link 2000 + x - s\ns: .word 1\nx = e\n", ".word 2\ne::\n"), 0o2004),
         ((".link 2000 + x - s\ns: .word 1\nx = y\ny = e\n", ".word 2\ne::\n"), 0o2004), (("x = e\n.link 2000 + x - s\ns: .word 1\n", ".word 2\ne::\n"), 0o2004),
